@@ -105,7 +105,24 @@ def choose_shape(m, tier):
     thorough: every tree of depth <= 2 over the full alphabet, then depth 3 with depth-1 operands"""
     if tier == "quick":
         L, P, F = LEAVES_Q, ["Minus"], ["Sine"]
-        k = m.choose([(x, None) for x in ["depth1", "prefix", "call", "left-compound", "right-compound", "both-compound"]])
+        k = m.choose([(x, None) for x in ["depth1", "prefix", "call", "left-compound", "right-compound", "both-compound", "deep-chain", "affine"]])
+        if k == "affine":
+            # the affine rules look three levels deep: (A*B + b) + (C*D + d), (A*B) + (C*D), (X + b) + (Y + d)
+            A = [("var", None, "x"), ("var", None, "y"), ("num", 2.0), ("addr", None, "a")]
+            form = m.choose([(x, None) for x in ["full", "products", "sums"]])
+            leaf = lambda: choose_leaf(m, A)
+            prod = lambda: ("infix", "Star", leaf(), leaf())
+            if form == "products": return ("infix", "Plus", prod(), prod())
+            if form == "sums": return ("infix", "Plus", ("infix", "Plus", leaf(), leaf()), ("infix", "Plus", leaf(), leaf()))
+            cst = lambda: choose_leaf(m, [("num", 1.0), ("var", None, "y")])
+            return ("infix", "Plus", ("infix", "Plus", prod(), cst()), ("infix", "Plus", prod(), cst()))
+        if k == "deep-chain":
+            # the simplifier gives up after 10 levels (LIMIT): unary chains up to depth 14 over pi, a variable and a sum with pi
+            n = m.choose([(i, None) for i in range(8, 15)])
+            s = m.choose([(x, None) for x in [("pi",), ("var", None, "x"), ("infix", "Plus", ("var", None, "x"), ("pi",))]])
+            outer = m.choose([(x, None) for x in ["Minus", "Sine"]])
+            for _ in range(n): s = ("prefix", "Minus", s) if outer == "Minus" else ("call", "Sine", s)
+            return s
         if k == "depth1": return choose_depth1(m, L, P, F)
         if k == "prefix": return ("prefix", "Minus", choose_depth1(m, L, P, F, allow_leaf=False))
         if k == "call": return ("call", "Sine", choose_depth1(m, L, P, F, allow_leaf=False))
